@@ -108,6 +108,15 @@ def eval_case(case):
         # (the extra names are outside the Terrapin classes, so that context is the same in both directions)
         spec['enc_c'] = ['arcfour'] + lists['enc'][::-1]
         spec['mac_c'] = lists['mac'][::-1] + ['hmac-sha1']
+    if case.get('chatty'):
+        # the probes are answered, each reply preceded by a debug message whose text is not ASCII (showing it or not is presentation)
+        spec['hostkeys'] = {'ssh-ed25519': {'t': 'ed25519'}, 'ssh-rsa': {'t': 'rsa', 'bits': 1024}, 'rsa-sha2-256': {'t': 'rsa', 'bits': 1024}, 'rsa-sha2-512': {'t': 'rsa', 'bits': 1024}}
+        spec['moduli'] = [1024, 3072]
+        spec['gex_style'] = 'roundup'
+        spec['chatter'] = {'kexdh_reply': 1, 'gex_group': 1, 'gex_reply': 2}
+        spec['chatter_text'] = 'd\u00e9bogage: cl\u00e9 \u2603 \U0001f511'.encode('utf-8').decode('latin-1')
+    if case.get('comp'):
+        spec['comp'] = case['comp']
     if case.get('probe_trouble'):
         # the follow-up connections of the probes run into trouble (refused / closed / silent); what is said about it is presentation
         spec['faults'] = [[w, i, f] for (w, f) in [case['probe_trouble']] for i in range(1, 30)]
@@ -167,7 +176,7 @@ def eval_case(case):
                 for sev in ('fail', 'warn', 'info'):
                     for t, k in w[sev].items():
                         want[(c, name, sev, t)] += k
-        if ref != want:
+        if ref != want and not case.get('chatty'):       # (with the probes answered the measurements add notes of their own: there the renderings are compared with each other only)
             diff = list((ref - want).items())[:3] + list((want - ref).items())[:3]
             fails.append(['text-findings-differ-from-table', repr(diff)])
     # 3. level filtering: findings at level L are exactly those with severity >= L; lines are a subsequence
@@ -231,7 +240,7 @@ def eval_case(case):
 def eval_subproc(case):
     """Engine B: the real process under several hash seeds must print byte-identical output, equal to engine A's."""
     lists, role = case['lists'], 'server'
-    spec = {'banner': 'SSH-2.0-OpenSSH_8.4p1 Debian-5', 'kex': lists['kex'], 'key': lists['key'], 'enc': lists['enc'], 'mac': lists['mac'], 'hostkeys': {'ssh-ed25519': {'t': 'ed25519'}, 'ssh-rsa': {'t': 'rsa', 'bits': 2048}, 'rsa-sha2-256': {'t': 'rsa', 'bits': 2048}, 'rsa-sha2-512': {'t': 'rsa', 'bits': 2048}}, 'moduli': [2048, 3072], 'gex_style': 'roundup'}
+    spec = {'banner': 'SSH-2.0-OpenSSH_8.4p1 Debian-5', 'comp': case.get('comp') or ['none'], 'kex': lists['kex'], 'key': lists['key'], 'enc': lists['enc'], 'mac': lists['mac'], 'hostkeys': {'ssh-ed25519': {'t': 'ed25519'}, 'ssh-rsa': {'t': 'rsa', 'bits': 2048}, 'rsa-sha2-256': {'t': 'rsa', 'bits': 2048}, 'rsa-sha2-512': {'t': 'rsa', 'bits': 2048}}, 'moduli': [2048, 3072], 'gex_style': 'roundup'}
     fails = []
     outs = {}
     argv = case['argv']
@@ -288,6 +297,19 @@ def valid_case(case):
 def run(ctx):
     n = 320 if ctx.quick else 5000
     ctx.hyp('strat_peer', n, label=1, shards=16)
+    # peers that answer the probes and talk while doing so; peers with several compression methods; peers whose report runs to hundreds of kilobytes
+    rn0 = {c: sorted(gens.rated_names(c)) for c in CATS}
+    special = []
+    for i in range(6 if ctx.quick else 40):
+        lists = {c: [rn0[c][(i * 17 + j * 5 + ctx.seed) % len(rn0[c])] for j in range(1 + (i + j0) % 3)] for j0, c in enumerate(CATS)}
+        lists['kex'] = ['curve25519-sha256'] + [k for k in lists['kex'] if k != 'curve25519-sha256'] + ['diffie-hellman-group-exchange-sha256']
+        lists['key'] = list(dict.fromkeys(lists['key'] + ['rsa-sha2-512', 'ssh-ed25519']))
+        special.append({'kind': 'peer', 'lists': lists, 'role': 'server', 'chatty': True, 'comp': [['zlib@openssh.com', 'zlib', 'none'], ['none', 'zlib'], ['zlib', 'zlib@openssh.com']][i % 3]})
+    for i in range(1 if ctx.quick else 4):
+        big = {c: rn0[c] + ['vendor-%s-%04d@example.com' % (c, j) for j in range(1300 + 100 * i)] for c in CATS}
+        big['kex'] = [k for k in big['kex'] if not k.startswith('diffie-hellman-group-exchange')]
+        special.append({'kind': 'peer', 'lists': big, 'role': ('server', 'client')[i % 2]})
+    ctx.map(special, chunk=1)
     # engine B sample (deterministic peers drawn from the table)
     rn = {c: gens.rated_names(c) for c in CATS}
     sub = []
@@ -314,7 +336,7 @@ def run(ctx):
             # several advertised names behind one table entry (two GSS mechanisms of the same family): one order, whatever the hash seed
             lists['kex'] = lists['kex'] + ['gss-gex-sha1-toWM5Slw5Ew8Mqkay+al2g==', 'gss-group14-sha1-toWM5Slw5Ew8Mqkay+al2g==', 'gss-gex-sha1-dZuIebMjgUqaxvbF7hDbAw==', 'gss-group14-sha1-dZuIebMjgUqaxvbF7hDbAw==', 'gss-gex-sha1-eipGX3TCiQSrx573bT1o1Q==', 'gss-group14-sha1-eipGX3TCiQSrx573bT1o1Q==']
         argv = [['-n'], ['-n', '-j'], ['-n', '-v'], ['-b'], ['-jj']][i % 5]
-        sub.append({'kind': 'subproc', 'lists': {c: list(dict.fromkeys(l)) for c, l in lists.items()}, 'argv': argv, 'hashseeds': [0, 1, 2, 3, 4, 12345]})
+        sub.append({'kind': 'subproc', 'lists': {c: list(dict.fromkeys(l)) for c, l in lists.items()}, 'argv': argv, 'hashseeds': [0, 1, 2, 3, 4, 12345], 'comp': [None, ['zlib@openssh.com', 'zlib', 'none'], ['zlib', 'none', 'zlib@openssh.com', 'lz4@example.com']][i % 3]})
         if i % 4 == 2:
             sub.append({'kind': 'subproc', 'limited': True, 'lists': dict(sub[-1]['lists'], key=['rsa-sha2-512', 'ssh-ed25519', 'ecdsa-sha2-nistp256', 'ssh-rsa']), 'argv': argv, 'hashseeds': [0, 1, 2, 3, 4, 5, 6, 12345]})
     pc = [{'kind': 'policy', 'legacy': lg, 'larger': la, 'drift': dr, 'rsa': rsa, 'dh': dh} for lg in (False, True) for la in (False, True) for dr in (False, True) for rsa in (3072, 4096, 2048) for dh in (3072, 2048)]
